@@ -194,6 +194,8 @@ def run(tier, chk):
     # concatenations with constants typed wider than their slot, and inputs taken from the simplifier's own output language
     tf = loose_compose_trees(rnd, 2500 if quick else 30000)
     run_space(chk, tf, rnd, 8 if quick else 16, [], 'f:concatenations with constants wider than their slot')
+    tw = wide_trees(rnd, 1500 if quick else 20000)
+    run_space(chk, tw, rnd, 8 if quick else 16, [], 'w:128-bit concatenations, operators and slices (SSE operands, 128-bit read-backs)')
     src = loose_compose_trees(rnd, 1500 if quick else 15000) + random_trees(rnd, 1500 if quick else 15000)
     # the first pass is judged like every other space; only outputs it accepts (well typed, same value) feed the second pass
     good = run_space(chk, src, rnd, 8 if quick else 16, [], 'g1:first pass of the two-pass inputs', keep_unchanged=1.0)
@@ -336,6 +338,60 @@ def loose_compose_trees(rnd, n):
         t = {'k': 'compose', 'w': w, 'a': args, 's': [[lo, hi] for lo, hi in slots]}
         if rnd.random() < 0.3:
             t = {'k': 'op', 'w': w, 'o': rnd.choice(['+', '^', '&', '|']), 'u': 0, 'a': [t, {'k': 'id', 'w': w, 'n': 'z' + str(w)}]}
+        out.append(t)
+    return out
+
+
+def wide_trees(rnd, n):
+    """128-bit values (SSE operands, and what the symbolic memory assembles for a 128-bit read-back): concatenations of
+    128 bits with constant / identifier / slice / memory parts, bitwise and additive operators on them, slices out of them"""
+    W = 128
+
+    def const(w):
+        v = rnd.getrandbits(w) if rnd.random() < 0.6 else rnd.choice(irlib.boundary(w) if w <= 64 else [0, 1, (1 << 127) - 1, 1 << 127, (1 << 128) - 1, 1 << 64, (1 << 64) - 1])
+        return {'k': 'int', 'w': w, 'v': core.limbs(v, w)}
+
+    def part(sw):
+        r = rnd.random()
+        if r < 0.45:
+            tw = rnd.choice([x for x in (8, 16, 32, 64, 128) if x >= sw])
+            return const(tw)
+        if r < 0.6 and sw in (8, 16, 32, 64):
+            return {'k': 'id', 'w': sw, 'n': rnd.choice('xy') + str(sw)}
+        if r < 0.7 and sw in (8, 16, 32, 64):
+            return {'k': 'mem', 'w': sw, 'a': [{'k': 'id', 'w': 32, 'n': 'p32'}], 'g': []}
+        bw = rnd.choice([x for x in (64, 128) if x >= sw])
+        src = {'k': 'id', 'w': bw, 'n': rnd.choice('xy') + str(bw)}
+        l0 = rnd.choice([0, bw - sw, (bw - sw) // 2 // 8 * 8])
+        return src if bw == sw else {'k': 'slice', 'w': sw, 'lo': l0, 'hi': l0 + sw, 'a': [src]}
+
+    def compose():
+        cuts = sorted(set([0, W] + [rnd.choice([8, 16, 32, 64, 96, 120]) for _ in range(rnd.choice([1, 1, 2, 3]))]))
+        slots = list(zip(cuts, cuts[1:]))
+        return {'k': 'compose', 'w': W, 'a': [part(hi - lo) for lo, hi in slots], 's': [[lo, hi] for lo, hi in slots]}
+
+    def leaf():
+        r = rnd.random()
+        if r < 0.5:
+            return compose()
+        if r < 0.7:
+            return const(W)
+        if r < 0.9:
+            return {'k': 'id', 'w': W, 'n': rnd.choice('xyz') + '128'}
+        return {'k': 'mem', 'w': W, 'a': [{'k': 'id', 'w': 32, 'n': 'p32'}], 'g': []}
+    out = []
+    while len(out) < n:
+        r = rnd.random()
+        if r < 0.35:
+            t = compose()
+        elif r < 0.7:
+            o = rnd.choice(['^', '&', '|', '+', '-', '^', '&'])
+            t = {'k': 'op', 'w': W, 'o': o, 'u': 0, 'a': [leaf() for _ in range(3 if o in '^&|+' and rnd.random() < 0.3 else 2)]}
+        else:
+            sw = rnd.choice([8, 32, 64, 64])
+            lo = rnd.choice([0, W - sw, 32, 64, 56])
+            lo = min(lo, W - sw)
+            t = {'k': 'slice', 'w': sw, 'lo': lo, 'hi': lo + sw, 'a': [leaf()]}
         out.append(t)
     return out
 
